@@ -379,3 +379,288 @@ Proof.
   - eapply perm_trans; [apply Permutation_sym, sort_pkgs_perm|].
     eapply perm_trans; [|apply sort_pkgs_perm]. now apply Permutation_map.
 Qed.
+
+(* ====================================================================== *)
+(* the registry section                                                    *)
+(* ====================================================================== *)
+(* maps of maps: registry package -> version -> value *)
+Section Nested.
+Context {V : Type}.
+Definition lookup2 (p : mpkg) (v : version) (m : list (mpkg * list (version * V))) : option V :=
+  match alookup mpkg_eqb p m with Some vs => alookup version_eqb v vs | None => None end.
+Definition set2 (p : mpkg) (v : version) (x : V) (m : list (mpkg * list (version * V))) :=
+  aset mpkg_eqb p (aset version_eqb v x (or_nil (alookup mpkg_eqb p m))) m.
+
+Lemma mpkg_eqb_spec a b : mpkg_eqb a b = true <-> a = b.
+Proof.
+  unfold mpkg_eqb. rewrite !andl_spec, !andb_true_iff, !str_eqb_eq.
+  destruct a, b; cbn. split; [intros [[[-> ->] ->] ->]; reflexivity|intros [= -> -> -> ->]; auto].
+Qed.
+
+Lemma lookup2_set2_same p v x m : lookup2 p v (set2 p v x m) = Some x.
+Proof.
+  unfold lookup2, set2. rewrite (alookup_aset_same mpkg_eqb mpkg_eqb_spec).
+  apply (alookup_aset_same version_eqb LookupProofs.version_eqb_spec).
+Qed.
+
+Lemma lookup2_set2_other p v p' v' x m : (p', v') <> (p, v) -> lookup2 p' v' (set2 p v x m) = lookup2 p' v' m.
+Proof.
+  intros Hne. unfold lookup2, set2.
+  destruct (key_dec mpkg_eqb mpkg_eqb_spec p' p) as [->|Hp].
+  - rewrite (alookup_aset_same mpkg_eqb mpkg_eqb_spec).
+    rewrite (alookup_aset_other version_eqb LookupProofs.version_eqb_spec) by congruence.
+    destruct (alookup mpkg_eqb p m); reflexivity.
+  - now rewrite (alookup_aset_other mpkg_eqb mpkg_eqb_spec) by exact Hp.
+Qed.
+
+(* loading a list of (package, version, value) bindings *)
+Definition load2 (l : list ((mpkg * version) * V)) (m : list (mpkg * list (version * V))) :=
+  fold_left (fun m kv => set2 (fst (fst kv)) (snd (fst kv)) (snd kv) m) l m.
+
+Lemma load2_not_in l : forall m p v, ~ In (p, v) (map fst l) -> lookup2 p v (load2 l m) = lookup2 p v m.
+Proof.
+  induction l as [|[[p' v'] x] l IH]; intros m p v Hn; [reflexivity|].
+  cbn [load2 fold_left fst snd]. change (fold_left _ l ?y) with (load2 l y). cbn in Hn.
+  rewrite IH by tauto. apply lookup2_set2_other. intros E. apply Hn. left. now symmetry.
+Qed.
+
+Lemma load2_in l : forall m p v x, NoDup (map fst l) -> In ((p, v), x) l -> lookup2 p v (load2 l m) = Some x.
+Proof.
+  induction l as [|[[p' v'] x'] l IH]; intros m p v x Hnd Hin; [contradiction|].
+  cbn [map fst] in Hnd. inversion Hnd as [|? ? Hni Hnd']; subst.
+  cbn [load2 fold_left fst snd]. change (fold_left _ l ?y) with (load2 l y).
+  destruct Hin as [[= -> -> ->]|Hin].
+  - rewrite load2_not_in by exact Hni. apply lookup2_set2_same.
+  - now apply IH.
+Qed.
+End Nested.
+
+(* the printed form of one table entry, and the flat view of a registry section *)
+Definition flat_registry (regs : list mregistry) : list (str * mversion) :=
+  flat_map (fun r => map (fun mv => (mr_source r, mv)) (mr_versions r)) regs.
+
+Definition print_entry (depr : list ((mpkg * version) * option deprecation))
+    (e : (mpkg * version) * (rpkg * str)) : str * mversion :=
+  (mpkg_string (fst (fst e)),
+   mkMVersion (version_string (snd (fst e))) (remote_string (fst (snd e)) (snd (snd e)))
+              (match alookup (fun a b => mpkg_eqb (fst a) (fst b) &&& version_eqb (snd a) (snd b)) (fst e) depr with
+               | Some d => d | None => None end)).
+
+(* ---------- load_versions is a load of bindings ---------- *)
+Definition vkey_of (mv : mversion) : version :=
+  match parse_version (mv_version mv) with Some v => v | None => mkVer 0 0 0 [] [] end.
+Definition vsrc_of (mv : mversion) : rpkg * str :=
+  match parse_remote (mv_source mv) with Ok x => x | _ => (mkPkg [] empty_url, []) end.
+Definition mpkg_of (s : str) : mpkg :=
+  match parse_registry_pkg s with Ok p => p | _ => mkMpkg [] [] [] [] end.
+
+Definition mv_parses (mv : mversion) : Prop :=
+  (exists v, parse_version (mv_version mv) = Some v) /\ (exists x, parse_remote (mv_source mv) = Ok x).
+
+Lemma load_versions_as_load : forall vs srcs deprs,
+  (forall mv, In mv vs -> mv_parses mv) ->
+  load_versions vs srcs deprs
+  = Ok (load_all version_eqb (map (fun mv => (vkey_of mv, vsrc_of mv)) vs) srcs,
+        load_all version_eqb (map (fun mv => (vkey_of mv, mv_depr mv)) vs) deprs).
+Proof.
+  induction vs as [|mv vs IH]; intros srcs deprs Hp; [reflexivity|].
+  destruct (Hp mv (or_introl eq_refl)) as [[v Hv] [x Hx]].
+  assert (Ek : vkey_of mv = v) by (unfold vkey_of; now rewrite Hv).
+  assert (Es : vsrc_of mv = x) by (unfold vsrc_of; now rewrite Hx).
+  cbn [load_versions]. rewrite Hv, Hx. cbn [rbind].
+  rewrite IH by (intros mv' Hin; apply Hp; now right).
+  cbn [map load_all fold_left fst snd]. now rewrite Ek, Es.
+Qed.
+
+(* maps of maps, compared through lookup2 *)
+Definition same2 {V} (a b : list (mpkg * list (version * V))) : Prop := forall q v, lookup2 q v a = lookup2 q v b.
+
+Lemma record_step {V} (p : mpkg) (bs : list (version * V)) (reg m : list (mpkg * list (version * V))) :
+  NoDup (map fst bs) -> same2 reg m ->
+  same2 (aset mpkg_eqb p (load_all version_eqb bs (or_nil (alookup mpkg_eqb p reg))) reg)
+        (load2 (map (fun b => ((p, fst b), snd b)) bs) m).
+Proof.
+  intros Hnd Hs q v.
+  assert (Hkeys : map fst (map (fun b : version * V => ((p, fst b), snd b)) bs) = map (fun k => (p, k)) (map fst bs))
+    by (rewrite !map_map; reflexivity).
+  destruct (key_dec mpkg_eqb mpkg_eqb_spec q p) as [->|Hq].
+  - unfold lookup2 at 1. rewrite (alookup_aset_same mpkg_eqb mpkg_eqb_spec).
+    destruct (in_dec (key_dec version_eqb LookupProofs.version_eqb_spec) v (map fst bs)) as [Hin|Hni].
+    + apply in_map_iff in Hin as ([v0 x] & E & Hin). cbn in E. subst v0.
+      rewrite (load_all_in version_eqb LookupProofs.version_eqb_spec bs _ v x Hnd Hin).
+      symmetry. apply load2_in.
+      * rewrite Hkeys. clear - Hnd. induction (map fst bs) as [|k l IH]; [constructor|].
+        inversion Hnd as [|? ? Hni Hnd']; subst. cbn. constructor; [|now apply IH].
+        intros Hin. apply Hni. apply in_map_iff in Hin as (k' & [= <-] & Hk). exact Hk.
+      * apply in_map_iff. exists (v, x). auto.
+    + rewrite (load_all_not_in version_eqb LookupProofs.version_eqb_spec bs _ v Hni).
+      rewrite load2_not_in.
+      * rewrite <- Hs. unfold lookup2. destruct (alookup mpkg_eqb p reg); reflexivity.
+      * rewrite Hkeys. intros Hin. apply in_map_iff in Hin as (k' & [= <-] & Hk). contradiction.
+  - unfold lookup2 at 1. rewrite (alookup_aset_other mpkg_eqb mpkg_eqb_spec) by exact Hq.
+    fold (lookup2 q v reg). rewrite Hs. symmetry. apply load2_not_in.
+    rewrite Hkeys. intros Hin. apply in_map_iff in Hin as (k' & [= E] & _). congruence.
+Qed.
+
+Lemma load2_app {V} (a b : list ((mpkg * version) * V)) m : load2 (a ++ b) m = load2 b (load2 a m).
+Proof. unfold load2. apply fold_left_app. Qed.
+
+(* the bindings a registry section holds, in document order *)
+Definition reg_bindings (regs : list mregistry) : list ((mpkg * version) * (rpkg * str)) :=
+  flat_map (fun r => map (fun mv => ((mpkg_of (mr_source r), vkey_of mv), vsrc_of mv)) (mr_versions r)) regs.
+Definition depr_bindings (regs : list mregistry) : list ((mpkg * version) * option deprecation) :=
+  flat_map (fun r => map (fun mv => ((mpkg_of (mr_source r), vkey_of mv), mv_depr mv)) (mr_versions r)) regs.
+
+Definition record_parses (r : mregistry) : Prop :=
+  (exists p, parse_registry_pkg (mr_source r) = Ok p) /\ (forall mv, In mv (mr_versions r) -> mv_parses mv) /\
+  NoDup (map vkey_of (mr_versions r)).
+
+Theorem load_registry_as_load : forall regs reg depr mreg mdepr,
+  (forall r, In r regs -> record_parses r) -> same2 reg mreg -> same2 depr mdepr ->
+  exists reg' depr',
+    load_registry regs reg depr = Ok (reg', depr') /\
+    same2 reg' (load2 (reg_bindings regs) mreg) /\ same2 depr' (load2 (depr_bindings regs) mdepr).
+Proof.
+  induction regs as [|r regs IH]; intros reg depr mreg mdepr Hp Hr Hd.
+  - exists reg, depr. repeat split; assumption.
+  - destruct (Hp r (or_introl eq_refl)) as ([p Hpp] & Hvs & Hnd).
+    cbn [load_registry]. rewrite Hpp. cbn [rbind].
+    rewrite (load_versions_as_load (mr_versions r) _ _ Hvs). cbn [rbind].
+    assert (Hmp : mpkg_of (mr_source r) = p) by (unfold mpkg_of; now rewrite Hpp).
+    cbn [reg_bindings depr_bindings flat_map]. rewrite !load2_app. rewrite Hmp.
+    apply IH; [intros r' Hin; apply Hp; now right| |].
+    + pose proof (record_step p (map (fun mv => (vkey_of mv, vsrc_of mv)) (mr_versions r)) reg mreg) as H.
+      rewrite !map_map in H. cbn [fst snd] in H. apply H; [exact Hnd|exact Hr].
+    + pose proof (record_step p (map (fun mv => (vkey_of mv, mv_depr mv)) (mr_versions r)) depr mdepr) as H.
+      rewrite !map_map in H. cbn [fst snd] in H. apply H; [exact Hnd|exact Hd].
+Qed.
+
+(* ---------- reading back the builder's registry tables ---------- *)
+Section RegistryRT.
+Variable R : list ((mpkg * version) * (rpkg * str)).          (* resolved (package, version) -> source *)
+Variable Dp : list ((mpkg * version) * option deprecation).   (* ... -> deprecation note *)
+Hypothesis HndR : NoDup (map fst R).
+Hypothesis HndD : NoDup (map fst Dp).
+
+Definition pv_eqb (a b : mpkg * version) : bool := mpkg_eqb (fst a) (fst b) &&& version_eqb (snd a) (snd b).
+
+Lemma pv_dec (a b : mpkg * version) : {a = b} + {a <> b}.
+Proof.
+  destruct a as [p v], b as [q w].
+  destruct (key_dec mpkg_eqb mpkg_eqb_spec p q) as [->|Hp]; [|right; congruence].
+  destruct (key_dec version_eqb LookupProofs.version_eqb_spec v w) as [->|Hv]; [left; reflexivity|right; congruence].
+Qed.
+
+Definition table_get {V} (T : list ((mpkg * version) * V)) (p : mpkg) (v : version) : option V :=
+  match find (fun e => if pv_dec (fst e) (p, v) then true else false) T with Some e => Some (snd e) | None => None end.
+
+Lemma table_get_in {V} (T : list ((mpkg * version) * V)) p v x :
+  NoDup (map fst T) -> In ((p, v), x) T -> table_get T p v = Some x.
+Proof.
+  unfold table_get. induction T as [|[k y] T IH]; intros Hnd Hin; [contradiction|].
+  cbn [map fst] in Hnd. inversion Hnd as [|? ? Hni Hnd']; subst. cbn [find fst].
+  destruct (pv_dec k (p, v)) as [->|Hne].
+  - destruct Hin as [[= ->]|Hin]; [reflexivity|]. exfalso. apply Hni. apply in_map_iff. exists ((p, v), x). auto.
+  - destruct Hin as [[= E _]|Hin]; [congruence|]. now apply IH.
+Qed.
+
+Lemma table_get_not_in {V} (T : list ((mpkg * version) * V)) p v :
+  ~ In (p, v) (map fst T) -> table_get T p v = None.
+Proof.
+  unfold table_get. induction T as [|[k y] T IH]; intros Hn; [reflexivity|]. cbn [find fst]. cbn in Hn.
+  destruct (pv_dec k (p, v)) as [->|Hne]; [tauto|]. apply IH. tauto.
+Qed.
+
+Lemma load2_is_table {V} (T B : list ((mpkg * version) * V)) :
+  NoDup (map fst T) -> Permutation T B -> forall p v, lookup2 p v (load2 B []) = table_get T p v.
+Proof.
+  intros Hnd Hp p v.
+  assert (HndB : NoDup (map fst B)) by (eapply Permutation_NoDup; [apply Permutation_map; exact Hp|exact Hnd]).
+  destruct (in_dec pv_dec (p, v) (map fst T)) as [Hin|Hni].
+  - apply in_map_iff in Hin as ([k x] & E & Hin). cbn in E. subst k.
+    rewrite (table_get_in T p v x Hnd Hin). apply load2_in; [exact HndB|]. eapply Permutation_in; eauto.
+  - rewrite (table_get_not_in T p v Hni). rewrite load2_not_in; [reflexivity|].
+    intros Hin. apply Hni. eapply Permutation_in; [apply Permutation_sym, Permutation_map; exact Hp|exact Hin].
+Qed.
+
+(* any registry section whose records parse and whose bindings are the tables' entries, in any
+   order and grouping, is read back as the tables *)
+Theorem reopen_registry regs :
+  (forall r, In r regs -> record_parses r) ->
+  Permutation R (reg_bindings regs) -> Permutation Dp (depr_bindings regs) ->
+  exists reg' depr',
+    load_registry regs [] [] = Ok (reg', depr') /\
+    (forall p v, lookup2 p v reg' = table_get R p v) /\
+    (forall p v, lookup2 p v depr' = table_get Dp p v).
+Proof.
+  intros Hp HR HD.
+  destruct (load_registry_as_load regs [] [] [] [] Hp (fun _ _ => eq_refl) (fun _ _ => eq_refl)) as (reg' & depr' & E & Sr & Sd).
+  exists reg', depr'. split; [exact E|]. split.
+  - intros p v. rewrite Sr. now apply load2_is_table.
+  - intros p v. rewrite Sd. now apply load2_is_table.
+Qed.
+End RegistryRT.
+
+(* one record per table entry: a document of that kind exists whenever the
+   printed forms parse back (C06), and OpenDir merges the records of one package *)
+Definition entry_record (Dp : list ((mpkg * version) * option deprecation)) (e : (mpkg * version) * (rpkg * str)) : mregistry :=
+  mkMRegistry (mpkg_string (fst (fst e)))
+    [mkMVersion (version_string (snd (fst e))) (remote_string (fst (snd e)) (snd (snd e)))
+                (match table_get Dp (fst (fst e)) (snd (fst e)) with Some d => d | None => None end)].
+
+Lemma entry_bindings Dp p v rp sub :
+  parse_registry_pkg (mpkg_string p) = Ok p -> parse_version (version_string v) = Some v ->
+  parse_remote (remote_string rp sub) = Ok (rp, sub) ->
+  map (fun mv => ((mpkg_of (mr_source (entry_record Dp ((p, v), (rp, sub)))), vkey_of mv), vsrc_of mv))
+      (mr_versions (entry_record Dp ((p, v), (rp, sub)))) = [((p, v), (rp, sub))].
+Proof.
+  intros A B C. unfold entry_record. cbn [fst snd mr_source mr_versions map].
+  unfold mpkg_of, vkey_of, vsrc_of. cbn [mv_version mv_source]. now rewrite A, B, C.
+Qed.
+
+Lemma entry_depr_bindings Dp p v rp sub :
+  parse_registry_pkg (mpkg_string p) = Ok p -> parse_version (version_string v) = Some v ->
+  map (fun mv => ((mpkg_of (mr_source (entry_record Dp ((p, v), (rp, sub)))), vkey_of mv), mv_depr mv))
+      (mr_versions (entry_record Dp ((p, v), (rp, sub))))
+  = [((p, v), match table_get Dp p v with Some d => d | None => None end)].
+Proof.
+  intros A B. unfold entry_record. cbn [fst snd mr_source mr_versions map].
+  unfold mpkg_of, vkey_of. cbn [mv_version mv_depr]. now rewrite A, B.
+Qed.
+
+Theorem reopen_written_registry R Dp :
+  NoDup (map fst R) -> NoDup (map fst Dp) -> map fst Dp = map fst R ->
+  (forall p v rp sub, In ((p, v), (rp, sub)) R ->
+     parse_registry_pkg (mpkg_string p) = Ok p /\ parse_version (version_string v) = Some v /\
+     parse_remote (remote_string rp sub) = Ok (rp, sub)) ->
+  exists reg' depr',
+    load_registry (map (entry_record Dp) R) [] [] = Ok (reg', depr') /\
+    (forall p v, lookup2 p v reg' = table_get R p v) /\
+    (forall p v, lookup2 p v depr' = table_get Dp p v).
+Proof.
+  intros HndR HndD Hkeys Hrt.
+  assert (Hb : forall R0, (forall e, In e R0 -> In e R) -> reg_bindings (map (entry_record Dp) R0) = R0).
+  { induction R0 as [|[[p v] [rp sub]] R0 IH]; intros Hin; [reflexivity|].
+    cbn [map]. unfold reg_bindings in *. cbn [flat_map].
+    destruct (Hrt p v rp sub (Hin _ (or_introl eq_refl))) as (A & B & C).
+    rewrite (entry_bindings Dp p v rp sub A B C). cbn [app]. f_equal. apply IH. intros e He. apply Hin. now right. }
+  assert (Hd : forall R0 D0, map fst D0 = map fst R0 -> (forall e, In e R0 -> In e R) -> (forall e, In e D0 -> In e Dp) ->
+              depr_bindings (map (entry_record Dp) R0) = D0).
+  { induction R0 as [|[[p v] [rp sub]] R0 IH]; intros D0 Hk HinR HinD.
+    - destruct D0; [reflexivity|discriminate].
+    - destruct D0 as [|[k d] D0]; [discriminate|]. cbn [map fst] in Hk. injection Hk as Hk1 Hk2. subst k.
+      cbn [map]. unfold depr_bindings in *. cbn [flat_map].
+      destruct (Hrt p v rp sub (HinR _ (or_introl eq_refl))) as (A & B & C).
+      rewrite (entry_depr_bindings Dp p v rp sub A B).
+      rewrite (table_get_in Dp p v d HndD (HinD _ (or_introl eq_refl))). cbn [app]. f_equal.
+      apply IH; [exact Hk2|intros e He; apply HinR; now right|intros e He; apply HinD; now right]. }
+  apply (reopen_registry R Dp HndR HndD (map (entry_record Dp) R)).
+  - intros r Hin. apply in_map_iff in Hin as ([[p v] [rp sub]] & <- & Hin).
+    destruct (Hrt p v rp sub Hin) as (A & B & C).
+    unfold record_parses, entry_record. cbn [fst snd mr_source mr_versions].
+    split; [eauto|]. split.
+    + intros mv [<-|[]]. unfold mv_parses. cbn [mv_version mv_source]. eauto.
+    + cbn. constructor; [intros []|constructor].
+  - rewrite Hb by auto. apply Permutation_refl.
+  - rewrite (Hd R Dp Hkeys) by auto. apply Permutation_refl.
+Qed.
